@@ -577,6 +577,13 @@ impl<T: RealNumber> BaseMatrix<T> for DenseMatrix<T> {
     }
 
     fn copy_row_as_vec(&self, row: usize, result: &mut Vec<T>) {
+        if result.len() < self.ncols {
+            panic!(
+                "The buffer holds {} elements, a row has {}",
+                result.len(),
+                self.ncols
+            );
+        }
         for (c, result_c) in result.iter_mut().enumerate().take(self.ncols) {
             *result_c = self.get(row, c);
         }
@@ -591,6 +598,13 @@ impl<T: RealNumber> BaseMatrix<T> for DenseMatrix<T> {
     }
 
     fn copy_col_as_vec(&self, col: usize, result: &mut Vec<T>) {
+        if result.len() < self.nrows {
+            panic!(
+                "The buffer holds {} elements, a column has {}",
+                result.len(),
+                self.nrows
+            );
+        }
         for (r, result_r) in result.iter_mut().enumerate().take(self.nrows) {
             *result_r = self.get(r, col);
         }
